@@ -505,12 +505,19 @@ validate_deps = Contract(M + '_validate_dependencies_exist', trusted=True,
 resolve_class = Contract('pywbem_mock/_resolvermixin.py::ResolverMixin._resolve_class', trusted=True,
                          caller_requires=[],
                          requires=[('the-class-that-is-resolved-is-a-private-copy',
-                                    'fresh(new_class) and new_class is not caller_NewClass')],
+                                    'private(new_class) and new_class is not caller_NewClass')],
                          raises={'CIMError': Raises(post=[('code', 'exc.status_code in (CIM_ERR_INVALID_PARAMETER, '
                                                            'CIM_ERR_INVALID_SUPERCLASS)')])},
                          notes='reads class and qualifier store only; changes the elements of the class object it is given, not '
                                'its classname / superclass name; its documented errors are CIM_ERR_INVALID_SUPERCLASS and '
                                'CIM_ERR_INVALID_PARAMETER (bounded: C12)')
+# CIMClass.copy() is documented as a "middle-deep" copy: a new CIMClass object whose property / method / qualifier objects
+# are SHARED with the original.  The resolver writes into exactly those element objects (propagated, class_origin, inherited
+# qualifiers), so a class copied this way is not private(): only deepcopy() gives that (A-DEEPCOPY).
+class_copy = Contract('pywbem/_cim_obj.py::CIMClass.copy', returns=Ref('CIMClass'), trusted=True,
+                      ensures=[('a-new-object-with-shared-elements', 'fresh(result)'),
+                               ('same-names', 'result.classname == self.classname and result.superclass == self.superclass')],
+                      notes='documented middle-deep copy (CIMProperty/CIMMethod/CIMQualifier objects are shared): fresh, not private')
 NEWNAME = 'NewClass.classname'
 CONTRACTS.append(Contract(
     M + 'CreateClass',
@@ -518,7 +525,7 @@ CONTRACTS.append(Contract(
     ghosts={'g_cstore': CLS_STORE},
     callees={'validate_namespace': validate_ns, 'get_class_store': get_cstore_m, 'get_qualifier_store': get_qstore_m,
              'InMemoryObjectStore.object_exists': c_exists, '_validate_dependencies_exist': validate_deps,
-             '_resolve_class': resolve_class, 'InMemoryObjectStore.create': c_create},
+             '_resolve_class': resolve_class, 'InMemoryObjectStore.create': c_create, 'CIMClass.copy': class_copy},
     ensures=[('exactly-one-write', 'self._g_cwrites == old(self._g_cwrites) + 1'),
              ('the-class-is-stored-and-no-other-class-is-touched',
               f'old({NEWNAME} not in g_cstore._data) and {NEWNAME} in g_cstore._data and '
@@ -547,7 +554,7 @@ c_get = Contract(S + 'InMemoryObjectStore.get', returns=Ref('CIMClass'),
                  raises={'KeyError': Raises(post=[('only-when-absent', 'name not in self._data')])}, notes='proved under C10')
 resolve_class_m = Contract('pywbem_mock/_resolvermixin.py::ResolverMixin._resolve_class', trusted=True,
                            requires=[('the-class-that-is-resolved-is-a-private-copy',
-                                      'fresh(new_class) and new_class is not caller_ModifiedClass')],
+                                      'private(new_class) and new_class is not caller_ModifiedClass')],
                            raises=resolve_class.raises, notes=resolve_class.notes)
 MODNAME = 'ModifiedClass.classname'
 CONTRACTS.append(Contract(
@@ -559,7 +566,7 @@ CONTRACTS.append(Contract(
              'get_qualifier_store': get_qstore_m, 'InMemoryObjectStore.object_exists': c_exists,
              '_get_subclass_names': subclass_names_m, 'iter_values': no_instances, 'InMemoryObjectStore.get': c_get,
              '_validate_dependencies_exist': validate_deps, '_resolve_class': resolve_class_m,
-             'InMemoryObjectStore.update': c_update},
+             'InMemoryObjectStore.update': c_update, 'CIMClass.copy': class_copy},
     ensures=[('exactly-one-write', 'self._g_cwrites == old(self._g_cwrites) + 1'),
              ('the-class-is-replaced-and-no-other-class-is-touched',
               f'old({MODNAME} in g_cstore._data) and {MODNAME} in g_cstore._data and '
